@@ -63,24 +63,31 @@ Proof.
 Qed.
 
 (** Get: membership and uniqueness *)
-Lemma ret_get_member d f r : flat_ok ret_key (d_ret d) →
+Lemma gmatch_mmatch f t : filter_ok f = true → gmatch f t = mmatch f t.
+Proof.
+  revert t. induction f as [|x f IH]; intros t Hok; [done|]. cbn [filter_ok] in Hok. apply andb_true_iff in Hok as [Hx Hok].
+  cbn [gmatch mmatch]. destruct (String.eqb x "#") eqn:E; cbn [negb orb andb] in *.
+  - by rewrite Hx.
+  - destruct t as [|y t]; [done|]. by rewrite IH.
+Qed.
+Lemma ret_get_member d f r : flat_ok ret_key (d_ret d) → filter_ok (levels f) = true →
   r ∈ ret_get d f ↔ abs_ret (d_ret d) (ret_key r) = Some r ∧ ret_added r = true ∧ mmatch (levels f) (levels (ret_key r)) = true.
 Proof.
-  intros Hok. unfold ret_get. rewrite elem_of_list_In, filter_In, in_map_iff. split.
-  - intros [([k v] & <- & Hin) Ha]. apply filter_In in Hin as [Hin Hm]. cbn in *.
+  intros Hok Hf. unfold ret_get. rewrite elem_of_list_In, filter_In, in_map_iff. split.
+  - intros [([k v] & <- & Hin) Ha]. apply filter_In in Hin as [Hin Hm]. cbn in *. rewrite gmatch_mmatch in Hm by done.
     pose proof Hok as [_ Hk]. rewrite Forall_forall in Hk. specialize (Hk (k, v) (proj2 (elem_of_list_In _ _) Hin)). cbn in Hk.
     split; [|by rewrite Hk]. unfold abs_ret. rewrite Hk. apply (flat_lookup_in ret_key); [done|by apply elem_of_list_In].
-  - intros (Hl & Ha & Hm). split; [|done]. exists (ret_key r, r). split; [done|]. apply filter_In. split; [|done].
+  - intros (Hl & Ha & Hm). split; [|done]. exists (ret_key r, r). split; [done|]. apply filter_In. split; [|cbn; by rewrite gmatch_mmatch].
     apply elem_of_list_In. by apply alookup_Some_in.
 Qed.
 Lemma ret_get_nodup d f : flat_ok ret_key (d_ret d) → NoDup (map ret_key (ret_get d f)).
 Proof.
   intros Hok. unfold ret_get. apply NoDup_map_filter.
   assert (Hsub : ∀ l : list (string * rmsg), NoDup (map fst l) → Forall (λ kv, ret_key kv.2 = kv.1) l →
-                 NoDup (map ret_key (map snd (List.filter (λ kv, mmatch (levels f) (levels kv.1)) l)))).
+                 NoDup (map ret_key (map snd (List.filter (λ kv, gmatch (levels f) (levels kv.1)) l)))).
   { intros l. induction l as [|[k v] l IH]; [intros; apply NoDup_nil_2|]. cbn [map fst List.filter].
     intros [Hn Hnd]%NoDup_cons [Hk Hall]%Forall_cons. cbn [fst snd] in Hk |- *.
-    destruct (mmatch (levels f) (levels k)); [|by apply IH]. cbn [map snd]. apply NoDup_cons. split; [|by apply IH].
+    destruct (gmatch (levels f) (levels k)); [|by apply IH]. cbn [map snd]. apply NoDup_cons. split; [|by apply IH].
     rewrite Hk. intros (r & Hr & Hin)%elem_of_list_fmap. apply elem_of_list_fmap in Hin as ([k' v'] & -> & Hin).
     apply elem_of_list_In, filter_In in Hin as [Hin _]. rewrite Forall_forall in Hall.
     specialize (Hall _ (proj2 (elem_of_list_In _ _) Hin)). cbn in *. apply Hn. apply elem_of_list_fmap. exists (k', v').
